@@ -1,5 +1,6 @@
 SPECIFICATION NSpec
 CONSTANT Pairs <- AllPairs
 CONSTANT Instances <- NucInstances
+CONSTANT Refused <- NoRefused
 INVARIANT MappingUnambiguous
 INVARIANT SameProcess
